@@ -277,6 +277,31 @@ Section BarrelFacts.
     - subst after. simpl. now rewrite app_nil_r.
   Qed.
 
+  (* a negative index counts from the end; further back than the first item: IndexError *)
+  Theorem bl_get_neg_flat ls (k : nat) :
+    ls <> [] -> 0 < k ->
+    bl_get ls (- Z.of_nat k)%Z =
+    match (if k <=? length (concat ls) then nth_error (concat ls) (length (concat ls) - k) else None) with
+    | Some v => Ok v | None => Raise IndexError end.
+  Proof.
+    intros Hne Hk. destruct (Nat.leb_spec k (length (concat ls))) as [Hle|Hgt].
+    - rewrite <- (bl_get_flat ls (length (concat ls) - k) Hne).
+      unfold bl_get, translate_index. destruct ls as [|l0 rest]; [congruence|].
+      destruct (Z.ltb_spec (- Z.of_nat k) 0); [|lia].
+      destruct (Z.ltb_spec (Z.of_nat (length (concat (l0 :: rest)) - k)) 0); [lia|].
+      rewrite bl_len_concat.
+      replace (- Z.of_nat k + Z.of_nat (length (concat (l0 :: rest))))%Z
+        with (Z.of_nat (length (concat (l0 :: rest)) - k)) by lia.
+      reflexivity.
+    - unfold bl_get, translate_index. destruct ls as [|l0 rest]; [congruence|].
+      destruct (Z.ltb_spec (- Z.of_nat k) 0); [|lia].
+      rewrite bl_len_concat.
+      set (rel := (- Z.of_nat k + Z.of_nat (length (concat (l0 :: rest))))%Z).
+      assert (Hrel : (rel < 0)%Z) by (unfold rel; lia).
+      simpl translate_go. destruct (Z.ltb_spec rel (Z.of_nat (length l0))); [|lia].
+      destruct (Z.ltb_spec rel 0); [reflexivity|lia].
+  Qed.
+
   (* ---- pop(index), index <> -1 ------------------------------------------------ *)
   Theorem bl_pop_flat ls (i : nat) :
     ls <> [] ->
@@ -404,11 +429,16 @@ End BarrelFacts.
 (* ------------------------------------------------------------------------ *)
 (* BarrelList driven directly = Python list (Spec.lspec_run), any limit      *)
 (* ------------------------------------------------------------------------ *)
+Lemma if_true_eq {X} (a b : X) : (if true then a else b) = a.
+Proof. reflexivity. Qed.
+Lemma if_false_eq {X} (a b : X) : (if false then a else b) = b.
+Proof. reflexivity. Qed.
+
 Theorem barrel_refines_list (limit : nat -> nat) : forall ops (ls : barrel (A := nat)),
   ls <> [] -> bl_run limit ls ops = lspec_run (concat ls) ops.
 Proof.
   induction ops as [|op ops IH]; intros ls Hne; [reflexivity|].
-  simpl. destruct op as [i x|i|i| |]; simpl.
+  destruct op as [i x|i|i|k| |]; cbn [bl_run lspec_run bl_step lspec_step].
   - destruct (bl_insert_flat limit ls i x Hne) as (ls' & E & F & G).
     rewrite E. f_equal. rewrite <- F. now apply IH.
   - pose proof (bl_pop_flat limit ls i Hne) as P.
@@ -417,6 +447,12 @@ Proof.
     + rewrite P. f_equal. now apply IH.
   - rewrite (bl_get_flat ls i Hne).
     destruct (nth_error (concat ls) i); f_equal; now apply IH.
+  - destruct k as [|k].
+    + change (- Z.of_nat 0)%Z with (Z.of_nat 0). rewrite (bl_get_flat ls 0 Hne). cbn [Nat.eqb].
+      destruct (nth_error (concat ls) 0); f_equal; now apply IH.
+    + rewrite (bl_get_neg_flat ls (S k) Hne ltac:(lia)). cbn [Nat.eqb].
+      destruct (if S k <=? length (concat ls) then nth_error (concat ls) (length (concat ls) - S k) else None);
+        f_equal; now apply IH.
   - rewrite bl_len_concat. f_equal. now apply IH.
   - f_equal. now apply IH.
 Qed.
